@@ -29,7 +29,7 @@ def match_finding(v, kk):
         if m.get("op") != v["op"]:
             continue
         ok = True
-        for fld in ("k", "lit", "prev", "next", "first"):
+        for fld in ("k", "lit", "prev", "next", "next2", "first"):
             if fld in m and site.get(fld) not in m[fld]:
                 ok = False
         if ok:
